@@ -515,4 +515,579 @@ theorem fnext_quoted_eof (delim : Byte) (hd1 : delim ≠ 34) (fuel : Nat) (fs : 
   simp only [hget, beq_self_eq_true, ↓reduceIte, q1]
   exact ⟨_, rfl, rfl, rfl, rfl⟩
 
+/-- what the proof needs of a field: quoted if it must be, and no CR inside -/
+def FieldOk (delim : Byte) (p : Bool × List Byte) : Prop :=
+  (mustQuote delim p.2 = true → p.1 = true) ∧ CR ∉ p.2
+
+/-- loaded reader state between two rows, `D` = the unread bytes: either no error so far, or the
+input is exhausted and `eof` has already been recorded (by the quoted scanner's look-ahead) -/
+def AtRow (fs : FS) (D : List Byte) : Prop :=
+  (fs.err = none ∧ fs.st.future = [] ∧ fs.st.data.drop fs.st.cursor = D ∧ fs.st.cursor ≤ fs.st.data.length) ∨
+  (D = [] ∧ fs.err = some .eof)
+
+/-- loaded reader state after the last field of a row -/
+def Done (fs : FS) (D : List Byte) : Prop := fs.hitEOL = true ∧ AtRow fs D
+
+theorem mustQuote_false_of {delim : Byte} {p : Bool × List Byte} (h : FieldOk delim p) (hq : p.1 = false) :
+    mustQuote delim p.2 = false := by
+  cases hm : mustQuote delim p.2 with
+  | false => rfl
+  | true => rw [h.1 hm] at hq; exact absurd hq (by simp)
+
+/-- Step 3a. A rendered field followed by the delimiter and more bytes. -/
+theorem fnext_field_mid (delim : Byte) (hd1 : delim ≠ 34) (hd2 : delim ≠ 10) (fuel : Nat) (fs : FS)
+    (p : Bool × List Byte) (r0 : Byte) (rs : List Byte) (hp : FieldOk delim p)
+    (hr : Ready fs (renderField p.1 p.2 ++ delim :: r0 :: rs))
+    (hfu : (renderField p.1 p.2 ++ delim :: r0 :: rs).length ≤ fuel) :
+    ∃ fs', fnext delim fuel fs = some (fs', true) ∧ fs'.field = p.2 ∧ Ready fs' (r0 :: rs) := by
+  have hne : (delim == LF) = false := by simpa [LF] using hd2
+  obtain ⟨q, f⟩ := p
+  cases q with
+  | true =>
+    obtain ⟨fs', a1, a2, a3, a4, a5, a6, a7, a8⟩ :=
+      fnext_quoted delim hd1 hd2 fuel fs f delim r0 rs hr hp.2 (Or.inl rfl) hfu
+    exact ⟨fs', a1, a2, ⟨a3, by rw [a7, hne], a8 rfl, a5, a6, a4⟩⟩
+  | false =>
+    have hm := mustQuote_false_of hp rfl
+    simp only [renderField, Bool.false_eq_true, ↓reduceIte] at hr hfu
+    obtain ⟨fs', a1, a2, a3, a4, a5, a6, a7, a8⟩ :=
+      fnext_unquoted delim hd1 hd2 fuel fs f delim (r0 :: rs) hr hm (Or.inl rfl) hfu
+    exact ⟨fs', a1, a2, ⟨a3, by rw [a7, hne], a8 rfl, a5, a6, a4⟩⟩
+
+/-- Step 3b. A rendered field followed by LF (end of the row), whatever follows. -/
+theorem fnext_field_last (delim : Byte) (hd1 : delim ≠ 34) (hd2 : delim ≠ 10) (fuel : Nat) (fs : FS)
+    (p : Bool × List Byte) (rest : List Byte) (hp : FieldOk delim p)
+    (hr : Ready fs (renderField p.1 p.2 ++ LF :: rest))
+    (hfu : (renderField p.1 p.2 ++ LF :: rest).length ≤ fuel) :
+    ∃ fs', fnext delim fuel fs = some (fs', true) ∧ fs'.field = p.2 ∧ Done fs' rest := by
+  obtain ⟨q, f⟩ := p
+  cases q with
+  | true =>
+    cases rest with
+    | nil =>
+      obtain ⟨fs', a1, a2, a3, a4⟩ := fnext_quoted_eof delim hd1 fuel fs f LF hr hp.2 hfu
+      exact ⟨fs', a1, a2, a3, Or.inr ⟨rfl, a4⟩⟩
+    | cons r0 rs =>
+      obtain ⟨fs', a1, a2, a3, a4, a5, a6, a7, a8⟩ :=
+        fnext_quoted delim hd1 hd2 fuel fs f LF r0 rs hr hp.2 (Or.inr rfl) hfu
+      exact ⟨fs', a1, a2, by rw [a7]; rfl, Or.inl ⟨a4, a3, a5, a6⟩⟩
+  | false =>
+    have hm := mustQuote_false_of hp rfl
+    simp only [renderField, Bool.false_eq_true, ↓reduceIte] at hr hfu
+    obtain ⟨fs', a1, a2, a3, a4, a5, a6, a7, a8⟩ :=
+      fnext_unquoted delim hd1 hd2 fuel fs f LF rest hr hm (Or.inr rfl) hfu
+    exact ⟨fs', a1, a2, by rw [a7]; rfl, Or.inl ⟨a4, a3, a5, a6⟩⟩
+
+theorem renderRow_cons2 (delim : Byte) (p q : Bool × List Byte) (xs : List (Bool × List Byte)) (rest : List Byte) :
+    renderRow delim (p :: q :: xs) ++ rest = renderField p.1 p.2 ++ delim :: (renderRow delim (q :: xs) ++ rest) := by
+  simp [renderRow, renderFields]
+
+theorem renderRow_single (delim : Byte) (p : Bool × List Byte) (rest : List Byte) :
+    renderRow delim [p] ++ rest = renderField p.1 p.2 ++ LF :: rest := by
+  simp [renderRow, renderFields, LF]
+
+theorem renderRow_ne_nil (delim : Byte) (r : List (Bool × List Byte)) : renderRow delim r ≠ [] := by
+  simp [renderRow]
+
+theorem length_le_renderRow (delim : Byte) : ∀ r : List (Bool × List Byte), r.length ≤ (renderRow delim r).length
+  | [] => by simp
+  | [p] => by simp [renderRow]
+  | p :: q :: xs => by
+    have := length_le_renderRow delim (q :: xs)
+    have e := renderRow_cons2 delim p q xs []
+    simp only [List.append_nil] at e
+    rw [e]
+    simp only [List.length_append, List.length_cons] at this ⊢
+    omega
+
+/-- Step 3c. One rendered row through the row loop. -/
+theorem rowLoop_row (delim : Byte) (hd1 : delim ≠ 34) (hd2 : delim ≠ 10) (fuel : Nat) :
+    ∀ (r : List (Bool × List Byte)) (n : Nat) (fs : FS) (acc : List (List Byte)) (rest : List Byte),
+    r ≠ [] → (∀ p ∈ r, FieldOk delim p) → Ready fs (renderRow delim r ++ rest) →
+    (renderRow delim r ++ rest).length ≤ fuel → r.length < n →
+    ∃ fs', rowLoop delim fuel n fs acc = some (fs', acc ++ r.map (·.2)) ∧ Done fs' rest := by
+  intro r
+  induction r with
+  | nil => intro n fs acc rest h; exact absurd rfl h
+  | cons p xs ih =>
+    intro n fs acc rest _ hok hr hfu hn
+    have hp := hok p (by simp)
+    cases xs with
+    | nil =>
+      rw [renderRow_single] at hr hfu
+      obtain ⟨fs1, a1, a2, a3⟩ := fnext_field_last delim hd1 hd2 fuel fs p rest hp hr hfu
+      obtain ⟨m, rfl⟩ : ∃ m, n = m + 2 := ⟨n - 2, by simp at hn; omega⟩
+      refine ⟨fs1, ?_, a3⟩
+      have hstop : fnext delim fuel fs1 = some (fs1, false) := by
+        unfold fnext; simp [a3.1]
+      simp only [rowLoop, a1, hstop, a2]
+      simp
+    | cons q ys =>
+      rw [renderRow_cons2] at hr hfu
+      obtain ⟨r0, rs, hrs⟩ : ∃ r0 rs, renderRow delim (q :: ys) ++ rest = r0 :: rs := by
+        cases h : renderRow delim (q :: ys) ++ rest with
+        | nil => simp at h; exact absurd h.1 (renderRow_ne_nil _ _)
+        | cons r0 rs => exact ⟨r0, rs, rfl⟩
+      rw [hrs] at hr hfu
+      obtain ⟨fs1, a1, a2, a3⟩ := fnext_field_mid delim hd1 hd2 fuel fs p r0 rs hp hr hfu
+      obtain ⟨m, rfl⟩ : ∃ m, n = m + 1 := ⟨n - 1, by simp at hn; omega⟩
+      rw [← hrs] at a3
+      obtain ⟨fs', b1, b2⟩ := ih m fs1 (acc ++ [p.2]) rest (by simp)
+        (fun p' hp' => hok p' (List.mem_cons_of_mem _ hp')) a3
+        (by rw [hrs]; simp at hfu ⊢; omega) (by simp at hn ⊢; omega)
+      refine ⟨fs', ?_, b2⟩
+      simp only [rowLoop, a1, a2, b1]
+      simp
+
+theorem trimCR_id (row : List (List Byte)) (h : ∀ f ∈ row, CR ∉ f) : trimCR row = row := by
+  unfold trimCR
+  cases hl : row.getLast? with
+  | none => rfl
+  | some last =>
+    have hm : last ∈ row := List.mem_of_getLast? hl
+    have : (last.getLast? == some CR) = false := by
+      cases hc : last.getLast? == some CR with
+      | false => rfl
+      | true =>
+        have : last.getLast? = some CR := by simpa using hc
+        exact absurd (List.mem_of_getLast? this) (h last hm)
+    simp [this]
+
+/-- Step 3d. One rendered row through `readerNext`. -/
+theorem readerNext_row (delim : Byte) (hd1 : delim ≠ 34) (hd2 : delim ≠ 10) (fuel : Nat)
+    (r : List (Bool × List Byte)) (fs : FS) (rest : List Byte)
+    (hne : r ≠ []) (hok : ∀ p ∈ r, FieldOk delim p)
+    (he : fs.err = none) (hf : fs.st.future = []) (hdr : fs.st.data.drop fs.st.cursor = renderRow delim r ++ rest)
+    (hfu : (renderRow delim r ++ rest).length < fuel) :
+    ∃ fs', readerNext delim fuel fs = some (fs', r.map (·.2), true) ∧ AtRow fs' rest := by
+  have hready : Ready { fs with st := fs.st.reset, field := [], fieldStart := 0, hitEOL := false }
+      (renderRow delim r ++ rest) :=
+    ⟨hf, rfl, rfl, by simpa [St.reset] using hdr, Nat.zero_le _, he⟩
+  obtain ⟨fs', a1, a2⟩ := rowLoop_row delim hd1 hd2 fuel r fuel _ [] rest hne hok hready (by omega)
+    (by have := length_le_renderRow delim r; simp at hfu; omega)
+  have htrim : trimCR (r.map (·.2)) = r.map (·.2) := by
+    apply trimCR_id
+    intro f hfm
+    obtain ⟨p, hp, rfl⟩ := List.mem_map.mp hfm
+    exact (hok p hp).2
+  have hnemp : (r.map (·.2)).isEmpty = false := by
+    cases r with
+    | nil => exact absurd rfl hne
+    | cons _ _ => rfl
+  refine ⟨fs', ?_, a2.2⟩
+  have hsome : fs.err.isSome = false := by rw [he]; rfl
+  unfold readerNext
+  simp only [hsome, Bool.false_eq_true, ↓reduceIte]
+  simp only [List.nil_append] at a1
+  rw [a1]
+  simp only [htrim, hnemp, Bool.false_eq_true, ↓reduceIte]
+
+/-! ## §4 the whole document on the loaded buffer -/
+
+theorem renderDoc_cons (delim : Byte) (r : List (Bool × List Byte)) (rs : List (List (Bool × List Byte))) :
+    renderDoc delim (r :: rs) = renderRow delim r ++ renderDoc delim rs := by
+  simp [renderDoc]
+
+theorem renderDoc_eq_nil (delim : Byte) (rows : List (List (Bool × List Byte))) (h : renderDoc delim rows = []) :
+    rows = [] := by
+  cases rows with
+  | nil => rfl
+  | cons r rs =>
+    rw [renderDoc_cons] at h
+    simp at h
+    exact absurd h.1 (renderRow_ne_nil _ _)
+
+/-- end of input: the reader reports `eof` and no further row -/
+theorem readAll_end (delim : Byte) (fuel n : Nat) (fs : FS) (acc : List (List (List Byte)))
+    (h : AtRow fs []) (hfu : 0 < fuel) (hn : 0 < n) :
+    readAll delim fuel n fs acc = some (acc, some .eof) := by
+  obtain ⟨n, rfl⟩ : ∃ m, n = m + 1 := ⟨n - 1, by omega⟩
+  obtain ⟨k, rfl⟩ : ∃ m, fuel = m + 1 := ⟨fuel - 1, by omega⟩
+  rcases h with ⟨he, hf, hdr, hin⟩ | ⟨_, he⟩
+  · have hlen : fs.st.data.length - fs.st.cursor = 0 := by
+      have := congrArg List.length hdr; simpa using this
+    have hens : ens1 fs.st.reset = (fs.st.reset, some .eof) := by
+      rw [ens1_loaded _ (by simpa [St.reset] using hf)]
+      simp [St.reset]; omega
+    have hfn : fnext delim (k + 1) { fs with st := fs.st.reset, field := [], fieldStart := 0, hitEOL := false }
+        = some ({ fs with st := fs.st.reset, field := [], fieldStart := 0, hitEOL := false, err := some .eof }, false) := by
+      unfold fnext
+      simp only [Bool.false_eq_true, ↓reduceIte, hens]
+    have hrd : readerNext delim (k + 1) fs
+        = some ({ fs with st := fs.st.reset, field := [], fieldStart := 0, hitEOL := false, err := some .eof }, [], false) := by
+      have hsome : fs.err.isSome = false := by rw [he]; rfl
+      unfold readerNext
+      simp only [hsome, Bool.false_eq_true, ↓reduceIte]
+      simp [rowLoop, hfn, trimCR]
+    simp [readAll, hrd]
+  · have hrd : readerNext delim (k + 1) fs = some (fs, [], false) := by
+      unfold readerNext; simp [he]
+    simp [readAll, hrd, he]
+
+/-- Step 4 (loaded buffer). From a state between two rows whose unread bytes are a rendered table,
+`readAll` appends the table's rows and ends with `eof`. -/
+theorem readAll_rows (delim : Byte) (hd1 : delim ≠ 34) (hd2 : delim ≠ 10) (fuel : Nat) :
+    ∀ (rows : List (List (Bool × List Byte))) (n : Nat) (fs : FS) (acc : List (List (List Byte))),
+    (∀ r ∈ rows, r ≠ [] ∧ ∀ p ∈ r, FieldOk delim p) → AtRow fs (renderDoc delim rows) →
+    (renderDoc delim rows).length < fuel → rows.length < n →
+    readAll delim fuel n fs acc = some (acc ++ rows.map (·.map (·.2)), some .eof) := by
+  intro rows
+  induction rows with
+  | nil =>
+    intro n fs acc _ h hfu hn
+    simpa using readAll_end delim fuel n fs acc h (by omega) (by omega)
+  | cons r rs ih =>
+    intro n fs acc hok h hfu hn
+    obtain ⟨m, rfl⟩ : ∃ m, n = m + 1 := ⟨n - 1, by simp at hn; omega⟩
+    rw [renderDoc_cons] at h hfu
+    rcases h with ⟨he, hf, hdr, hin⟩ | ⟨hnil, _⟩
+    · obtain ⟨hne, hfo⟩ := hok r (by simp)
+      obtain ⟨fs1, a1, a2⟩ := readerNext_row delim hd1 hd2 fuel r fs (renderDoc delim rs) hne hfo he hf hdr hfu
+      have := ih m fs1 (acc ++ [r.map (·.2)]) (fun r' hr' => hok r' (List.mem_cons_of_mem _ hr')) a2
+        (by simp at hfu ⊢; omega) (by simp at hn ⊢; omega)
+      simp only [readAll, a1, this]
+      simp
+    · simp at hnil
+      exact absurd hnil.1 (renderRow_ne_nil _ _)
+
+theorem readAll_loaded (delim : Byte) (hd1 : delim ≠ 34) (hd2 : delim ≠ 10)
+    (rows : List (List (Bool × List Byte))) (hok : ∀ r ∈ rows, r ≠ [] ∧ ∀ p ∈ r, FieldOk delim p)
+    (fuel n : Nat) (hfu : (renderDoc delim rows).length < fuel) (hn : rows.length < n) :
+    readAll delim fuel n (loadedFS (renderDoc delim rows)) [] = some (rows.map (·.map (·.2)), some .eof) := by
+  have := readAll_rows delim hd1 hd2 fuel rows n (loadedFS (renderDoc delim rows)) [] hok
+    (Or.inl ⟨rfl, rfl, rfl, Nat.zero_le _⟩) hfu hn
+  simpa using this
+
+/-! ## §5 totality under an arbitrary read schedule
+
+With enough fuel every loop of the reader mirror returns, whatever the schedule; the measure is the
+number of bytes not yet consumed, `data.length + future.length - cursor`. -/
+
+def TQ (x : Option (Full.Res × St)) (T c : Nat) : Prop :=
+  ∃ r s', x = some (r, s') ∧ s'.data.length + s'.future.length = T ∧ c ≤ s'.cursor ∧ s'.cursor ≤ s'.data.length
+
+theorem total_len {a b c d : List Byte} (h : a ++ b = c ++ d) : a.length + b.length = c.length + d.length := by
+  have := congrArg List.length h; simpa using this
+
+theorem quoted_total (delim : Byte) (fuel : Nat) : ∀ (s : St) (start w qc : Nat), s.cursor ≤ s.data.length →
+    s.data.length + s.future.length - s.cursor < fuel →
+    TQ (quoted delim fuel s start w qc) (s.data.length + s.future.length) s.cursor := by
+  induction fuel with
+  | zero => intro s start w qc _ h; omega
+  | succ n ih =>
+    intro s start w qc hcl hfu
+    unfold quoted
+    obtain ⟨a1, a2, a3, a4, a5⟩ := ensure2_spec (s.future.length + 1) s (by omega)
+    generalize ensure2 (s.future.length + 1) s = rs at a1 a2 a3 a4 a5
+    obtain ⟨s1, e1⟩ := rs
+    simp only at a1 a2 a3 a4 a5
+    have hT := total_len a1
+    rcases a5 with he | he
+    · subst he
+      have f0 := (a3 rfl).1
+      refine ⟨_, s1, rfl, hT, by omega, ?_⟩
+      rw [f0] at hT; simp at hT; omega
+    · subst he
+      have g1 := a4 rfl
+      simp only
+      rw [List.getElem?_eq_getElem (by omega : s1.cursor < s1.data.length)]
+      simp only
+      generalize s1.data[s1.cursor] = ch
+      have hkeep : TQ
+          (if (w + 1 != s1.cursor + 1) = true then
+            match s1.data[s1.cursor + 1]? with
+            | none => none
+            | some nb => quoted delim n { s1 with cursor := s1.cursor + 1, data := s1.data.set (w + 1) nb } start (w + 1) 0
+          else quoted delim n { s1 with cursor := s1.cursor + 1 } start (w + 1) 0)
+          (s.data.length + s.future.length) s.cursor := by
+        split
+        · rw [List.getElem?_eq_getElem g1]
+          simp only
+          obtain ⟨r, s', b1, b2, b3, b4⟩ := ih { s1 with cursor := s1.cursor + 1, data := s1.data.set (w + 1) s1.data[s1.cursor + 1] }
+            start (w + 1) 0 (by show s1.cursor + 1 ≤ (s1.data.set _ _).length; simp; omega)
+            (by show (s1.data.set _ _).length + s1.future.length - (s1.cursor + 1) < n; simp; omega)
+          refine ⟨r, s', b1, ?_, ?_, b4⟩
+          · rw [b2]; show (s1.data.set _ _).length + s1.future.length = _; simp; omega
+          · simp only at b3; omega
+        · obtain ⟨r, s', b1, b2, b3, b4⟩ := ih { s1 with cursor := s1.cursor + 1 } start (w + 1) 0
+            (by show s1.cursor + 1 ≤ s1.data.length; omega)
+            (by show s1.data.length + s1.future.length - (s1.cursor + 1) < n; omega)
+          exact ⟨r, s', b1, by rw [b2]; exact hT, by simp only at b3; omega, b4⟩
+      have hrec : ∀ qc', TQ (quoted delim n { s1 with cursor := s1.cursor + 1 } start w qc')
+          (s.data.length + s.future.length) s.cursor := by
+        intro qc'
+        obtain ⟨r, s', b1, b2, b3, b4⟩ := ih { s1 with cursor := s1.cursor + 1 } start w qc'
+          (by show s1.cursor + 1 ≤ s1.data.length; omega)
+          (by show s1.data.length + s1.future.length - (s1.cursor + 1) < n; omega)
+        exact ⟨r, s', b1, by rw [b2]; exact hT, by simp only at b3; omega, b4⟩
+      have hret : ∀ eol : Bool, TQ (some (⟨({ s1 with cursor := s1.cursor + 1 } : St).slice start w, eol, none⟩,
+          ({ s1 with cursor := s1.cursor + 1 } : St))) (s.data.length + s.future.length) s.cursor :=
+        fun eol => ⟨_, _, rfl, hT, by show s.cursor ≤ s1.cursor + 1; omega, by show s1.cursor + 1 ≤ s1.data.length; omega⟩
+      by_cases c1 : (ch == delim) = true
+      · simp only [c1, ↓reduceIte]
+        by_cases c2 : (qc % 2 != 0) = true
+        · simp only [c2, ↓reduceIte]; exact hret _
+        · simp only [c2, Bool.false_eq_true, ↓reduceIte]; exact hkeep
+      · simp only [c1, Bool.false_eq_true, ↓reduceIte]
+        by_cases c3 : (ch == LF) = true
+        · simp only [c3, ↓reduceIte]
+          by_cases c2 : (qc % 2 != 0) = true
+          · simp only [c2, ↓reduceIte]; exact hret _
+          · simp only [c2, Bool.false_eq_true, ↓reduceIte]; exact hkeep
+        · simp only [c3, Bool.false_eq_true, ↓reduceIte]
+          by_cases c4 : (ch == CR) = true
+          · simp only [c4, ↓reduceIte]; exact hrec qc
+          · simp only [c4, Bool.false_eq_true, ↓reduceIte]
+            by_cases c5 : (ch == QUOTE) = true
+            · simp only [c5, ↓reduceIte]
+              by_cases c6 : ((qc + 1) % 2 == 1) = true
+              · simp only [c6, ↓reduceIte]; exact hrec (qc + 1)
+              · simp only [c6, Bool.false_eq_true, ↓reduceIte]; exact hkeep
+            · simp only [c5, Bool.false_eq_true, ↓reduceIte]; exact hkeep
+
+def total (s : St) : Nat := s.data.length + s.future.length
+
+theorem unq_total (delim : Byte) (fuel : Nat) : ∀ (fs : FS), fs.st.cursor ≤ fs.st.data.length →
+    total fs.st - fs.st.cursor < fuel →
+    ∃ fs', unq delim fuel fs = some (fs', true) ∧ total fs'.st = total fs.st ∧ fs.st.cursor ≤ fs'.st.cursor ∧
+      fs'.st.cursor ≤ fs'.st.data.length ∧ (fs.st.cursor < fs.st.data.length → fs.st.cursor < fs'.st.cursor) := by
+  induction fuel with
+  | zero => intro fs _ h; omega
+  | succ n ih =>
+    intro fs hcl hfu
+    unfold total at hfu ⊢
+    unfold unq
+    obtain ⟨a1, a2, a3, a4, a5⟩ := ens1_spec fs.st hcl
+    generalize ens1 fs.st = rs at a1 a2 a3 a4 a5
+    obtain ⟨s1, e1⟩ := rs
+    simp only at a1 a2 a3 a4 a5
+    have hT := total_len a1
+    rcases a5 with he | he
+    · subst he
+      obtain ⟨f0, f1⟩ := a3 rfl
+      have hl : s1.data.length = fs.st.data.length + fs.st.future.length := by rw [f0] at hT; simpa using hT
+      refine ⟨_, rfl, hT, by show fs.st.cursor ≤ s1.cursor; omega, by show s1.cursor ≤ s1.data.length; omega, ?_⟩
+      intro h; omega
+    · subst he
+      have g1 := a4 rfl
+      simp only
+      rw [List.getElem?_eq_getElem g1]
+      simp only
+      generalize s1.data[s1.cursor] = ch
+      by_cases c1 : (ch == delim) = true
+      · simp only [c1, ↓reduceIte]
+        exact ⟨_, rfl, hT, by show fs.st.cursor ≤ s1.cursor + 1; omega, by show s1.cursor + 1 ≤ s1.data.length; omega,
+          fun _ => by show fs.st.cursor < s1.cursor + 1; omega⟩
+      · simp only [c1, Bool.false_eq_true, ↓reduceIte]
+        by_cases c2 : (ch == LF) = true
+        · simp only [c2, ↓reduceIte]
+          exact ⟨_, rfl, hT, by show fs.st.cursor ≤ s1.cursor + 1; omega, by show s1.cursor + 1 ≤ s1.data.length; omega,
+            fun _ => by show fs.st.cursor < s1.cursor + 1; omega⟩
+        · simp only [c2, Bool.false_eq_true, ↓reduceIte]
+          obtain ⟨fs', b1, b2, b3, b4, b5⟩ := ih { fs with st := { s1 with cursor := s1.cursor + 1 } }
+            (by show s1.cursor + 1 ≤ s1.data.length; omega)
+            (by show s1.data.length + s1.future.length - (s1.cursor + 1) < n; omega)
+          unfold total at b2
+          simp only at b2 b3
+          exact ⟨fs', b1, by rw [b2]; exact hT, by omega, b4, fun _ => by omega⟩
+
+theorem fnext_total (delim : Byte) (fuel : Nat) (fs : FS) (hcl : fs.st.cursor ≤ fs.st.data.length)
+    (hfu : total fs.st - fs.st.cursor < fuel) :
+    ∃ fs' ok, fnext delim fuel fs = some (fs', ok) ∧ total fs'.st = total fs.st ∧ fs.st.cursor ≤ fs'.st.cursor ∧
+      fs'.st.cursor ≤ fs'.st.data.length ∧ (ok = true → fs.st.cursor < fs'.st.cursor) := by
+  unfold fnext
+  by_cases hE : fs.hitEOL = true
+  · simp only [hE, ↓reduceIte]
+    exact ⟨fs, false, rfl, rfl, Nat.le_refl _, hcl, by simp⟩
+  · simp only [hE, Bool.false_eq_true, ↓reduceIte]
+    obtain ⟨a1, a2, a3, a4, a5⟩ := ens1_spec fs.st hcl
+    have hun := unq_total delim fuel
+    generalize ens1 fs.st = rs at a1 a2 a3 a4 a5
+    obtain ⟨s1, e1⟩ := rs
+    simp only at a1 a2 a3 a4 a5
+    have hT := total_len a1
+    unfold total at hfu ⊢
+    rcases a5 with he | he
+    · subst he
+      obtain ⟨f0, f1⟩ := a3 rfl
+      have hl : s1.data.length = fs.st.data.length + fs.st.future.length := by rw [f0] at hT; simpa using hT
+      exact ⟨_, false, rfl, hT, by show fs.st.cursor ≤ s1.cursor; omega, by show s1.cursor ≤ s1.data.length; omega, by simp⟩
+    · subst he
+      have g1 := a4 rfl
+      simp only
+      rw [List.getElem?_eq_getElem g1]
+      simp only
+      generalize s1.data[s1.cursor] = first
+      by_cases cq : (first == QUOTE) = true
+      · simp only [cq, ↓reduceIte]
+        obtain ⟨r, s', b1, b2, b3, b4⟩ := quoted_total delim fuel { s1 with cursor := s1.cursor + 1 } (s1.cursor + 1) (s1.cursor + 1) 0
+          (by show s1.cursor + 1 ≤ s1.data.length; omega)
+          (by show s1.data.length + s1.future.length - (s1.cursor + 1) < fuel; omega)
+        rw [b1]
+        simp only at b2 b3
+        exact ⟨_, true, rfl, by show s'.data.length + s'.future.length = _; rw [b2]; exact hT,
+          by show fs.st.cursor ≤ s'.cursor; omega, b4, fun _ => by show fs.st.cursor < s'.cursor; omega⟩
+      · simp only [cq, Bool.false_eq_true, ↓reduceIte]
+        obtain ⟨fs', b1, b2, b3, b4, b5⟩ := hun { fs with st := s1, hitEOL := false } (by show s1.cursor ≤ s1.data.length; omega)
+          (by show total s1 - s1.cursor < fuel; unfold total; omega)
+        unfold total at b2
+        simp only at b2 b3 b5
+        exact ⟨fs', true, b1, by rw [b2]; exact hT, by omega, b4, fun _ => by have := b5 g1; omega⟩
+
+theorem rowLoop_total (delim : Byte) (fuel : Nat) : ∀ (n : Nat) (fs : FS) (acc : List (List Byte)),
+    fs.st.cursor ≤ fs.st.data.length → total fs.st - fs.st.cursor < fuel → total fs.st - fs.st.cursor < n →
+    ∃ fs' row, rowLoop delim fuel n fs acc = some (fs', row) ∧ total fs'.st = total fs.st ∧
+      fs.st.cursor ≤ fs'.st.cursor ∧ fs'.st.cursor ≤ fs'.st.data.length ∧ (row = acc ∨ fs.st.cursor < fs'.st.cursor) := by
+  intro n
+  induction n with
+  | zero => intro fs acc _ _ h; omega
+  | succ n ih =>
+    intro fs acc hcl hfu hn
+    obtain ⟨fs1, ok, a1, a2, a3, a4, a5⟩ := fnext_total delim fuel fs hcl hfu
+    unfold rowLoop
+    rw [a1]
+    cases ok with
+    | false => exact ⟨fs1, acc, rfl, a2, a3, a4, Or.inl rfl⟩
+    | true =>
+      have hlt := a5 rfl
+      have hle : fs1.st.cursor ≤ total fs1.st := by unfold total; omega
+      obtain ⟨fs', row, b1, b2, b3, b4, b5⟩ := ih fs1 (acc ++ [fs1.field]) a4 (by omega) (by omega)
+      exact ⟨fs', row, b1, by rw [b2, a2], by omega, b4, Or.inr (by omega)⟩
+
+theorem trimCR_nil : trimCR [] = [] := rfl
+
+theorem readerNext_total (delim : Byte) (fuel : Nat) (fs : FS) (hcl : fs.st.cursor ≤ fs.st.data.length)
+    (hfu : total fs.st - fs.st.cursor < fuel) :
+    ∃ fs' row ok, readerNext delim fuel fs = some (fs', row, ok) ∧ fs'.st.cursor ≤ fs'.st.data.length ∧
+      total fs'.st - fs'.st.cursor ≤ total fs.st - fs.st.cursor ∧
+      (ok = true → total fs'.st - fs'.st.cursor < total fs.st - fs.st.cursor) := by
+  unfold readerNext
+  by_cases he : fs.err.isSome = true
+  · simp only [he, ↓reduceIte]
+    exact ⟨fs, [], false, rfl, hcl, Nat.le_refl _, by simp⟩
+  · simp only [he, Bool.false_eq_true, ↓reduceIte]
+    have hreset : total fs.st.reset - fs.st.reset.cursor = total fs.st - fs.st.cursor := by
+      simp [total, St.reset]; omega
+    obtain ⟨fs1, row, a1, a2, a3, a4, a5⟩ := rowLoop_total delim fuel fuel
+      { fs with st := fs.st.reset, field := [], fieldStart := 0, hitEOL := false } []
+      (Nat.zero_le _) (by show total fs.st.reset - fs.st.reset.cursor < fuel; omega)
+      (by show total fs.st.reset - fs.st.reset.cursor < fuel; omega)
+    rw [a1]
+    simp only at a2 a3 a5 hreset
+    have hc0 : fs.st.reset.cursor = 0 := rfl
+    by_cases hemp : (trimCR row).isEmpty = true
+    · simp only [hemp, ↓reduceIte]
+      exact ⟨_, [], false, rfl, a4, by show total fs1.st - fs1.st.cursor ≤ _; omega, by simp⟩
+    · simp only [hemp, Bool.false_eq_true, ↓reduceIte]
+      refine ⟨fs1, trimCR row, true, rfl, a4, by omega, fun _ => ?_⟩
+      rcases a5 with h | h
+      · subst h; exact absurd rfl hemp
+      · have : fs1.st.cursor ≤ total fs1.st := by unfold total; omega
+        omega
+
+theorem readAll_total (delim : Byte) (fuel : Nat) : ∀ (n : Nat) (fs : FS) (acc : List (List (List Byte))),
+    fs.st.cursor ≤ fs.st.data.length → total fs.st - fs.st.cursor < fuel → total fs.st - fs.st.cursor < n →
+    ∃ res, readAll delim fuel n fs acc = some res := by
+  intro n
+  induction n with
+  | zero => intro fs acc _ _ h; omega
+  | succ n ih =>
+    intro fs acc hcl hfu hn
+    obtain ⟨fs1, row, ok, a1, a2, a3, a4⟩ := readerNext_total delim fuel fs hcl hfu
+    unfold readAll
+    rw [a1]
+    cases ok with
+    | false => exact ⟨_, rfl⟩
+    | true =>
+      have := a4 rfl
+      exact ih fs1 _ a2 (by omega) (by omega)
+
+/-! ## §6 main theorems -/
+
+theorem rowOk_fields {delim : Byte} {r : List (Bool × List Byte)} (h : RowOk delim r) :
+    r ≠ [] ∧ ∀ p ∈ r, FieldOk delim p :=
+  ⟨h.nonempty, fun p hp => ⟨h.quoted p hp, h.noCR p hp⟩⟩
+
+/-- Step 4, any schedule, explicit fuel, minimal hypotheses (every row has a field, every field that
+must be quoted is quoted, no field contains CR): with `fuel` and `n` larger than the document, the reader
+mirror returns exactly the table and then `eof` — whatever the sizes of the reads. -/
+theorem read_render_core (delim : Byte) (hd : delim ≠ 34 ∧ delim ≠ 10 ∧ delim ≠ 13)
+    (rows : List (List (Bool × List Byte))) (h : ∀ r ∈ rows, r ≠ [] ∧ ∀ p ∈ r, FieldOk delim p)
+    (sched : List Nat) (fuel n : Nat)
+    (hfu : (renderDoc delim rows).length < fuel) (hn : (renderDoc delim rows).length < n) (hn' : rows.length < n) :
+    readAll delim fuel n (initFS (renderDoc delim rows) sched) [] = some (rows.map (·.map (·.2)), some .eof) := by
+  obtain ⟨res, hres⟩ := readAll_total delim fuel n (initFS (renderDoc delim rows) sched) []
+    (Nat.zero_le _) (by simpa [total, initFS] using hfu) (by simpa [total, initFS] using hn)
+  have h1 := read_schedule_independent delim fuel n _ sched res hres
+  have h2 := readAll_loaded delim hd.1 hd.2.1 rows h fuel n hfu hn'
+  rw [h1] at h2
+  rw [hres, h2]
+
+/-- **C12 on rendered documents.** For every table rendered with an admissible quoting choice
+(`RowOk`, which includes "no field contains CR"), the reader mirror returns the table and then `eof`,
+for every read schedule. -/
+theorem read_render (delim : Byte) (hd : delim ≠ 34 ∧ delim ≠ 10 ∧ delim ≠ 13)
+    (rows : List (List (Bool × List Byte))) (h : ∀ r ∈ rows, RowOk delim r) (sched : List Nat) :
+    ∃ fuel n, readAll delim fuel n (initFS (renderDoc delim rows) sched) []
+      = some (rows.map (·.map (·.2)), some .eof) :=
+  ⟨(renderDoc delim rows).length + 1, (renderDoc delim rows).length + rows.length + 1,
+    read_render_core delim hd rows (fun r hr => rowOk_fields (h r hr)) sched _ _ (by omega) (by omega) (by omega)⟩
+
+/-- the same with the bounds spelled out: any `fuel`, `n` above the document's size will do -/
+theorem read_render_fuel (delim : Byte) (hd : delim ≠ 34 ∧ delim ≠ 10 ∧ delim ≠ 13)
+    (rows : List (List (Bool × List Byte))) (h : ∀ r ∈ rows, RowOk delim r) (sched : List Nat) (fuel n : Nat)
+    (hfu : (renderDoc delim rows).length < fuel) (hn : (renderDoc delim rows).length + rows.length < n) :
+    readAll delim fuel n (initFS (renderDoc delim rows) sched) [] = some (rows.map (·.map (·.2)), some .eof) :=
+  read_render_core delim hd rows (fun r hr => rowOk_fields (h r hr)) sched fuel n hfu (by omega) (by omega)
+
+/-- **Reader mirror = specification** on rendered documents: the rows the reader mirror returns are
+`rfcParse` of the document, for every read schedule. -/
+theorem read_eq_spec (delim : Byte) (hd : delim ≠ 34 ∧ delim ≠ 10 ∧ delim ≠ 13)
+    (rows : List (List (Bool × List Byte))) (h : ∀ r ∈ rows, RowOk delim r) (sched : List Nat) :
+    ∃ fuel n, readAll delim fuel n (initFS (renderDoc delim rows) sched) []
+      = some (rfcParse delim (renderDoc delim rows), some .eof) := by
+  rw [QF.Props.C13.parse_render delim hd rows h]
+  exact read_render delim hd rows h sched
+
+/-- and whenever the reader mirror returns at all (any fuel, any schedule), it returns the specification's rows -/
+theorem read_eq_spec_of_some (delim : Byte) (hd : delim ≠ 34 ∧ delim ≠ 10 ∧ delim ≠ 13)
+    (rows : List (List (Bool × List Byte))) (h : ∀ r ∈ rows, RowOk delim r) (sched : List Nat) (fuel n : Nat)
+    (hfu : (renderDoc delim rows).length < fuel) (hn : rows.length < n)
+    (res : List (List (List Byte)) × Option RErr)
+    (hres : readAll delim fuel n (initFS (renderDoc delim rows) sched) [] = some res) :
+    res = (rfcParse delim (renderDoc delim rows), some .eof) := by
+  have h1 := read_schedule_independent delim fuel n _ sched res hres
+  have h2 := readAll_loaded delim hd.1 hd.2.1 rows (fun r hr => rowOk_fields (h r hr)) fuel n hfu hn
+  rw [h1] at h2
+  rw [QF.Props.C13.parse_render delim hd rows h]
+  exact Option.some.inj h2
+
+/-! ## The hypotheses are satisfiable; the model agrees on the instance -/
+
+open QF.Props.C13 (demo demo_ok) in
+/-- `ab,"c,""d⏎",⏎""⏎,"x",y!⏎` read one byte, then two, then three … at a time -/
+example : ∃ fuel n, readAll 44 fuel n (initFS (renderDoc 44 demo) [1, 2, 3, 1, 1, 5]) []
+    = some (demo.map (·.map (·.2)), some .eof) :=
+  read_render 44 (by decide) demo demo_ok [1, 2, 3, 1, 1, 5]
+
+open QF.Props.C13 (demo demo_ok) in
+example : ∃ fuel n, readAll 44 fuel n (initFS (renderDoc 44 demo) (List.replicate 100 1)) []
+    = some (rfcParse 44 (renderDoc 44 demo), some .eof) :=
+  read_eq_spec 44 (by decide) demo demo_ok _
+
+#eval (readAll 44 30 30 (initFS (renderDoc 44 QF.Props.C13.demo) [1, 2, 3, 1, 1, 5]) []).map
+  (fun r => (decide (r.1 = QF.Props.C13.demo.map (·.map (·.2))), r.2))
+
+#print axioms unq_field
+#print axioms quoted_field
+#print axioms rowLoop_row
+#print axioms readerNext_row
+#print axioms readAll_loaded
+#print axioms readAll_total
+#print axioms read_render_core
+#print axioms read_render
+#print axioms read_render_fuel
+#print axioms read_eq_spec
+#print axioms read_eq_spec_of_some
+
 end QF.Props.C12Read
